@@ -351,10 +351,14 @@ class MQTTProtocol(MQTTBaseProtocol):
         '''
         Called when a CONNACK has been received (publisher only).
         '''
+        # Only what was carried over from earlier connections is purged or
+        # resent: requests made through this protocol before the CONNACK
+        # arrived have just been transmitted on this very connection.
         if self._cleanStart:
-            self._purgeSession(MQTTSessionCleared())
+            self._purgeSession(MQTTSessionCleared(), keepOwn=True)
         else:
             self._syncSession()
+        self._refillPublish(dup=False)
         if self.onMqttConnectionMade:
             self.onMqttConnectionMade()
 
@@ -437,6 +441,7 @@ class MQTTProtocol(MQTTBaseProtocol):
                                               bandwith=self._bandwith, 
                                               factor=self._factor)
             request.retries  = 0
+        request.protocol = self     # tells this connection's requests from carried over ones
         try:
             request.encode()
         except Exception as e:
@@ -614,17 +619,21 @@ class MQTTProtocol(MQTTBaseProtocol):
         for _, reply in self.factory.windowPubRelease[self.addr].items():
             self._retryRelease(reply, dup=True)
         for _, request in self.factory.windowPublish[self.addr].items():
-            self._retryPublish(request, dup=True)
+            if request.protocol is not self:
+                self._retryPublish(request, dup=True)
 
     # --------------------------------------------------------------------------
 
-    def _purgeSession(self, reason):
+    def _purgeSession(self, reason, keepOwn=False):
         '''
         Purges the persistent state in the client 
+        (with keepOwn, except the requests made through this protocol)
         '''
         #log.debug("{event}", event="Clean Persistent Session")
         for k in list(self.factory.windowPublish[self.addr]):
             request = self.factory.windowPublish[self.addr][k]
+            if keepOwn and request.protocol is self:
+                continue
             del self.factory.windowPublish[self.addr][k]
             request.deferred.errback(reason)
 
